@@ -2,6 +2,8 @@
 import json, os, random, re, shutil
 from vlib import tlc, tlaval, gorun, core
 
+PROPS = ['C04', 'C05']
+
 INSTR = {"files": {
     "queue.go": {"funcs": ["queue.put", "queue.pop", "queue.size", "queue.markWorking", "queue.markNotWorking"]},
     "session.go": {"funcs": ["Session.wakeUpPeer"]},
